@@ -3,8 +3,13 @@
 // Case:   <kind> <mode:mdp|pomdp> <label…> <hex-encoded text (lowercase hex, "-" for the empty text)>
 //         (the text is always the LAST token; everything between mode and text is for the driver only)
 //         BADSHAPE <S> <A> [<O>]  when a returned table's element count is not the product of its shape
+//         two <mode2> <mode1> <hex1> <hex2>: one parser object re-used for two texts; output = second result | result of a fresh object on text2
 // Output: OK <S> <A> [<O>] <discount> <T: n x1..xn> <R: n x1..xn> [<W: n x1..xn>]   |  THROW <type>
 #include <AIToolbox/Tools/CassandraParser.hpp>
+#include <AIToolbox/MDP/IO.hpp>
+#include <AIToolbox/POMDP/IO.hpp>
+#include <AIToolbox/MDP/Model.hpp>
+#include <AIToolbox/POMDP/Model.hpp>
 #include <sstream>
 #include <unistd.h>
 #include <sys/wait.h>
@@ -33,9 +38,8 @@ static void dump(vio::Out & o, const AIToolbox::DumbMatrix3D & M) {
                 o << M[i][j][k];
 }
 
-static void runParse(const std::string & mode, const std::string & text, vio::Out & o) {
+static void runParseWith(AIToolbox::CassandraParser & parser, const std::string & mode, const std::string & text, vio::Out & o) {
     std::istringstream in(text);
-    AIToolbox::CassandraParser parser;
     if (mode == "mdp") {
         const auto [S, A, T, R, d] = parser.parseMDP(in);
         if (!sane(T, S, A, S) || !sane(R, S, A, S)) { o << "BADSHAPE" << S << A; return; }
@@ -47,11 +51,60 @@ static void runParse(const std::string & mode, const std::string & text, vio::Ou
     } else throw std::logic_error("unknown mode " + mode);
 }
 
+static void runParse(const std::string & mode, const std::string & text, vio::Out & o) {
+    AIToolbox::CassandraParser parser;
+    runParseWith(parser, mode, text, o);
+}
+
 int main(int argc, char ** argv) {
     return vio::runCases(argc, argv, [](vio::Cursor & c, vio::Out & o) {
         const std::string kind = c.next();
         const std::string mode = c.next();
         const std::string text = unhex(c.toks.back());
+        if (kind == "load") {
+            // load <mode> <ok|bad> <hex>: the public entry points MDP::parseCassandra / POMDP::parseCassandra
+            // (parser + Model constructor validation).  Output: LOK S A [O] discount T(s,a,s') ER(s,a) [W(s',a,o)]
+            std::istringstream in(text);
+            if (mode == "mdp") {
+                const auto m = AIToolbox::MDP::parseCassandra(in);
+                const size_t S = m.getS(), A = m.getA();
+                o << "LOK" << S << A << m.getDiscount();
+                o << (size_t) (S * A * S);
+                for (size_t s = 0; s < S; ++s) for (size_t a = 0; a < A; ++a) for (size_t s1 = 0; s1 < S; ++s1) o << m.getTransitionProbability(s, a, s1);
+                o << (size_t) (S * A);
+                for (size_t s = 0; s < S; ++s) for (size_t a = 0; a < A; ++a) o << m.getExpectedReward(s, a, 0);
+            } else {
+                const auto m = AIToolbox::POMDP::parseCassandra(in);
+                const size_t S = m.getS(), A = m.getA(), O = m.getO();
+                o << "LOK" << S << A << O << m.getDiscount();
+                o << (size_t) (S * A * S);
+                for (size_t s = 0; s < S; ++s) for (size_t a = 0; a < A; ++a) for (size_t s1 = 0; s1 < S; ++s1) o << m.getTransitionProbability(s, a, s1);
+                o << (size_t) (S * A);
+                for (size_t s = 0; s < S; ++s) for (size_t a = 0; a < A; ++a) o << m.getExpectedReward(s, a, 0);
+                o << (size_t) (S * A * O);
+                for (size_t s1 = 0; s1 < S; ++s1) for (size_t a = 0; a < A; ++a) for (size_t ob = 0; ob < O; ++ob) o << m.getObservationProbability(s1, a, ob);
+            }
+            return;
+        }
+        if (kind == "two") {
+            // two <mode2> <mode1> <hex1> <hex2>: ONE parser object reads text1 (result or exception
+            // discarded), then text2; the output is the second result.
+            const std::string mode1 = c.next();
+            const std::string text1 = unhex(c.toks.at(c.toks.size() - 2));
+            AIToolbox::CassandraParser parser;
+            try { vio::Out scratch; runParseWith(parser, mode1, text1, scratch); } catch (const std::exception &) {}
+            // second result with the re-used object, then " | ", then the result of a fresh object
+            auto guarded = [&](AIToolbox::CassandraParser & ps, vio::Out & out) {
+                try { runParseWith(ps, mode, text, out); }
+                catch (const std::exception & e) { out.os.str(""); out.os.clear(); out << "THROW" << vio::exnName(e); }
+            };
+            guarded(parser, o);
+            o << "|";
+            AIToolbox::CassandraParser fresh;
+            vio::Out o2; guarded(fresh, o2);
+            o.os << o2.os.str();
+            return;
+        }
         if (kind != "ovf") { runParse(mode, text, o); return; }
         // Overflowing sizes make today's parser write out of bounds; heap damage would surface in a
         // LATER case. Such cases run in a forked child so that the damage is attributed to them.
